@@ -1158,6 +1158,9 @@ def fixed_cases():
         # finding C12-string-constant-at-method-location: `HANDLER = "m"` before `class C` gets `_location == ['C', 'm']`
         {"id": "fixed-constant-at-method-location", "truth": "class", "names": w["names"], "states": st,
          "files": {"class": cls, "function": '__all__ = ["C"]\nHANDLER = "m"\n\n' + meth, "argparse_function": argp}, "runs": 1},
+        # finding C12-string-statement-at-method-location: the same collision for a string expression statement
+        {"id": "fixed-string-statement-at-method-location", "truth": "class", "names": w["names"], "states": st,
+         "files": {"class": cls, "function": '"""module doc"""\n\n"m"\n\n' + meth, "argparse_function": argp}, "runs": 2},
     ]
 
 
